@@ -404,6 +404,15 @@ class C19(runner.Prop):
             return
         if list(spec.entries()) != ['args', 'keywords']:
             ctx.fail('partial/entries', f'{spec.entries()}')
+        # flattening the same partial again gives an equal treespec with an equal hash (the wrapped callable - a
+        # shim around a nested partial - compares by the callable it wraps), a different callable an unequal one
+        again = optree.tree_structure(p, **kw)
+        if not (again == spec) or (again != spec) or hash(again) != hash(spec):
+            ctx.fail('partial/spec_eq_same_partial', f'{spec} vs {again}')
+        other_func = functools.partial(rec, *inner_args, **inner_kwargs) if nested else Recorder()
+        other = optree.tree_structure(oft.partial(other_func, *args, **kwargs), **kw)
+        if other == spec:
+            ctx.fail('partial/spec_eq_other_callable', f'{spec} vs {other}')
         leaves = optree.tree_leaves(p, **kw)
         want = optree.tree_leaves((tuple(args), kwargs), **kw)
         if not compare.same_leaves(leaves, want):
